@@ -20,8 +20,9 @@ func init() {
 			"(R5) every enqueue is guarded by equality of the parent hash with the last queued/requested/saved hash; " +
 			"(R6) all State fields are accessed under State.lock; " +
 			"(R7) on a fork among pending blocks the requests after the fork point are cleared (guarded by the parent being pending) before the new branch is enqueued; " +
-			"(R8) every block getdata item derives from a hash admitted by the window (AddBlockRequest send==true, or GetNextBlockToRequest).",
-		NotDecided: "step-by-step equivalence with a reference queue over operation sequences; per-connection at-most-once requests; actual byte counts.",
+			"(R8) every block getdata item derives from a hash admitted by the window (AddBlockRequest send==true, or GetNextBlockToRequest); " +
+			"(R9) when the fork point is one of the requested blocks the not-yet-requested queue is emptied on every path; (R10) a request's recorded size is overwritten only together with adding it to the buffered-bytes counter.",
+		NotDecided:  "step-by-step equivalence with a reference queue over operation sequences; per-connection at-most-once requests; actual byte counts.",
 		Assumptions: []string{"lock identity is the mutex field, instances are not distinguished", "wire.Block.SerializeSize is the only size source"},
 		Run:         runC13,
 	})
@@ -29,7 +30,7 @@ func init() {
 
 type stateAnchors struct {
 	blocksRequested, blocksToRequest, pendingBlockSize, lastSavedHash *types.Var
-	rbHash, rbBlock, rbSize                                          *types.Var
+	rbHash, rbBlock, rbSize                                           *types.Var
 }
 
 func (c *Check) stateAnchors(rule string) *stateAnchors {
@@ -251,6 +252,10 @@ func runC13(c *Check) {
 
 	// ---- R5: linkage on enqueue (shared with C02.R4)
 	c.ruleEnqueueLinkage("R5", a)
+
+	// ---- R9 / R10 (added after seeded round 3)
+	c.ruleToRequestEmptied("R9", a)
+	c.ruleSizeCoupledWithCounter("R10", a)
 
 	// ---- R6: lockset for State
 	c.lockset("R6", "state", "State", "lock", c.structFields("state", "State", "lock"), []string{"state"}, nil, 60)
